@@ -51,6 +51,17 @@ var renamePool = []string{
 
 var reserved = map[string]bool{"CORESIZE": true, "MAXLENGTH": true, "MAXPROCESSES": true, "MINDISTANCE": true}
 
+// comment picks a harmless comment; one in forty is longer than any buffer a reader is
+// likely to use (4 KiB, 64 KiB).
+func (s *Style) comment() string {
+	c := harmlessComments[s.pick(len(harmlessComments))]
+	if s.pick(40) == 7 {
+		n := []int{4090, 5000, 9000, 70000}[s.pick(4)]
+		c = "; " + strings.Repeat("long remark, ", n/13+1)[:n]
+	}
+	return c
+}
+
 func caseOf(s string, k int) string {
 	switch k {
 	case 0:
@@ -255,7 +266,7 @@ func Render(p Program, st Style, f Features) string {
 			if s.pick(3) == 1 {
 				t += trailingRemarks[s.pick(len(trailingRemarks))]
 			} else {
-				t += harmlessComments[s.pick(len(harmlessComments))]
+				t += s.comment()
 			}
 		}
 		return t
@@ -265,7 +276,7 @@ func Render(p Program, st Style, f Features) string {
 			emit("")
 		}
 		if f.Comments && s.pick(8) == 1 {
-			emit(indent() + harmlessComments[s.pick(len(harmlessComments))])
+			emit(indent() + s.comment())
 		}
 	}
 	var renderItems func(items []Item)
@@ -308,7 +319,11 @@ func Render(p Program, st Style, f Features) string {
 				emit(";" + it.Text + s.ws(true) + it.Arg + s.ws(false))
 			}
 		case KAssert:
-			emit(";assert" + s.ws(true) + s.expr(it.Expr, rn))
+			sep := s.ws(true)
+			if len(it.Expr) > 0 && (it.Expr[0].K == "(" || (it.Expr[0].K == "op" && (it.Expr[0].V == "-" || it.Expr[0].V == "+"))) && s.pick(3) == 0 {
+				sep = "" // a parenthesis or a sign cannot continue the keyword
+			}
+			emit(";assert" + sep + s.expr(it.Expr, rn))
 		case KFor:
 			l := indent() + s.labels(it.Labels, rn, false, f.ForOwnLine)
 			if it.Counter != "" {
